@@ -185,11 +185,17 @@ class ContinueSig(Exception):
 class SymSeq:
     """Sequence of symbolic length: len (z3 Int >= 0) and an element function index -> value."""
 
-    def __init__(self, name, length, elem, kind="list"):
+    def __init__(self, name, length, elem, kind="list", contains=None):
         self.name = name
         self.length = length      # z3 Int
         self.elem = elem          # callable(z3 Int index) -> value
         self.kind = kind
+        self.contains = contains  # optional callable(I, item) -> z3 Bool (membership predicate)
+
+    def sym_contains(self, I, item):
+        if self.contains is None:
+            raise Unsupported(f"'in' on symbolic sequence {self.name} without a membership predicate")
+        return self.contains(I, item)
 
 
 class Ev:
